@@ -74,13 +74,40 @@ class ResolvePortRefs(ElabPass):
             + list(module.instbundles.values())
         )
 
+        # `PortRef`s used as members of (potentially nested) anonymous bundles, which keep no back-references to them
+        anon_members = list()
+
+        def collect_anon_members(conn: Connectable) -> None:
+            if isinstance(conn, AnonymousBundle):
+                for attr in conn._namespace.values():
+                    if isinstance(attr, PortRef):
+                        anon_members.append(attr)
+                    else:
+                        collect_anon_members(attr)
+
+        for inst in instancelike:
+            for conn in inst.conns.values():
+                collect_anon_members(conn)
+
+        def used(portref: PortRef) -> bool:
+            """Boolean indication of whether `portref` is used anywhere.
+            Instances create and keep a `PortRef` whenever a port is *looked at*, e.g. `print(inst.p)`.
+            That alone does not connect the port to anything."""
+            return bool(
+                portref._connected_ports
+                or portref._slices
+                or portref._concats
+                or portref in anon_members
+            )
+
         # Collect up all `PortRef`s for all instances in the module
         # FIXME: move from SetList to a regular Set. Thus far breaks one test, somehow.
         module_portrefs = SetList()
         for inst in instancelike:
             # Populate the module-level set of PortRefs
             for portref in inst._refs.portrefs.values():
-                module_portrefs.add(portref)
+                if used(portref):
+                    module_portrefs.add(portref)
 
             # FIXME: add the `NoConn`s here, although it's not clear we *really* need these checks on them
             for portname, conn in inst.conns.items():
